@@ -1294,8 +1294,28 @@ def check_chapter10_same(args):
         return "Chapter10 and Chapter11 differ on %s: %s vs %s" % (l[:200], b[:200], a[:200])
     return None
 
+def check_namespace_stable(args):
+    """every import history: the names a legacy module binds are the same objects after the other legacy paths have
+    been imported (package first, then its sub-modules — and the reverse)"""
+    from ..adapters import ch10 as ad
+    r = ad.ns_stable(args["order"])
+    if r.get("error"):
+        return "importing the legacy modules in order %r raised %s" % (args["order"], r["error"])
+    if r["changed"]:
+        m, nme, now = r["changed"][0]
+        return "%s.%s is no longer the object it was when %s was first imported (now: %s) once the other legacy modules are imported" % (
+            m, nme, m, now)
+    return None
+
 def oracles_C19(ctx, hints):
     fails, n = [], 0
+    mods = _legacy_modules()
+    for order in (sorted(mods), sorted(mods, reverse=True), sorted(mods, key=lambda m: (m.count("."), m))):
+        n += 1
+        w = check_namespace_stable({"order": order})
+        if w:
+            fails.append(Failure("namespace_stable", {"order": order}, w, {"class": "namespace", "check": "import_history"}))
+            break
     for m in _legacy_modules():
         args = {"module": m}
         n += 1
@@ -1318,6 +1338,7 @@ def oracles_C19(ctx, hints):
     return fails
 
 ORACLES["namespace"] = check_namespace
+ORACLES["namespace_stable"] = check_namespace_stable
 ORACLES["chapter10_class"] = check_chapter10_class
 ORACLES["chapter10_same"] = check_chapter10_same
 
